@@ -232,6 +232,7 @@ func TestC01(t *testing.T) {
 			"oracle: per client the multiset of response stream ids equals the multiset of request stream ids, no stray frame (positive wait with stall watchdog, then OPTIONS fence + socket quiescence); "+
 			"non-trivial = a request with >=2 scripted attempts or a connection drop while requests are parked; distinct by (shape, request kinds, scripts, schedule)")
 	defer finish(t, rec)
+	rec.SetJournalAll(true)
 	rec.Assume("stream ids are unique per client while in flight", "a client connection closed by the proxy ends the obligation for its requests (property: 'as long as the client stays connected')",
 		"'never two' is decided after an OPTIONS fence and 8ms of socket silence: a duplicate arriving later than that would be missed (never a false alarm)")
 	check := c01Check(rec)
